@@ -53,7 +53,11 @@ def _run_scenario(idx: int) -> Tuple[int, List[Dict[str, Any]], Optional[str], f
     t = time.time()
     sc = core.REGISTRY[idx]
     try:
-        obs = sc.run()
+        try:
+            obs = sc.run()
+        finally:
+            from vf import jasmrt
+            jasmrt.restore_all()
         from vf import instrument, rt
         info = {"rewrites": {k: v for k, v in instrument.REWRITES.items() if any(v.values())}, "rt": dict(rt.COUNTS)}
         return idx, [o.to_json() for o in obs], None, time.time() - t, info
@@ -78,9 +82,76 @@ def _alpha_notes() -> Dict[str, Any]:
     """renamed functions / methods / classes / fields are read under the name the sidecar contracts use (vf.alpha)"""
     from vf import alpha, instrument
     ren, notes = alpha.renames_for(os.path.join(instrument.repo_root(), "src"))
-    return {"applied": dict(ren), "notes": list(notes),
+    src = os.path.join(instrument.repo_root(), "src")
+    return {"applied": dict(ren), "aliases": [list(a) for a in alpha.ALIASES.get(src, [])], "parameters": alpha.PARAMS.get(src, {}), "notes": list(notes),
             "what": "contracts are keyed by name; an identifier that was consistently renamed in the tree (old name gone, new name fresh) "
                     "is read under its old name in every module before the obligations are generated -- a bijective renaming, nothing else is changed"}
+
+
+MEM_LIMIT = int(os.environ.get("VERIF_MEM_GB", "6")) << 30
+SCEN_TIMEOUT = int(os.environ.get("VERIF_SCENARIO_TIMEOUT", "300"))
+
+
+def _worker_init() -> None:
+    """bound the address space of a worker: an automaton / solver blow-up then fails inside the worker (MemoryError -> the
+    scenario is UNDECIDED) instead of driving the machine into the OOM killer"""
+    try:
+        import resource
+        resource.setrlimit(resource.RLIMIT_AS, (MEM_LIMIT, MEM_LIMIT))
+    except Exception:
+        pass
+
+
+def _died(idx: int, why: str):
+    sc = core.REGISTRY[idx]
+    ob = Ob(f"{sc.ident}:RUN", sc.func, "RUN", "the contract scenario runs to completion on this tree", UNDECIDED, list(sc.props),
+            "pyvc", 0.0, "", f"scenario aborted: {why}")
+    return idx, [ob.to_json()], None, 0.0, {}
+
+
+def _run_all(idxs: List[int], jobs: int):
+    """every scenario in a worker process; a worker that dies (killed, out of memory, crashed solver) or exceeds the time limit
+    never hangs the check: its scenario -- identified by re-running the casualties one per process -- is UNDECIDED"""
+    from concurrent.futures import ProcessPoolExecutor, wait, FIRST_COMPLETED
+    from concurrent.futures.process import BrokenProcessPool
+    ctx = mp.get_context("fork")
+    results, pending_retry = [], []
+    try:
+        with ProcessPoolExecutor(max_workers=jobs, mp_context=ctx, initializer=_worker_init) as ex:
+            futs = {ex.submit(_run_scenario, i): i for i in idxs}
+            for f, i in futs.items():
+                try:
+                    results.append(f.result(timeout=SCEN_TIMEOUT * 2))
+                except BrokenProcessPool:
+                    pending_retry.append(i)
+                except Exception as e:       # noqa  (timeout, unpicklable result, ...)
+                    pending_retry.append(i)
+                    if type(e).__name__ == "TimeoutError":
+                        for pr in list(getattr(ex, "_processes", {}).values()):
+                            try:
+                                pr.kill()
+                            except Exception:
+                                pass
+    except BrokenProcessPool:
+        done = {r[0] for r in results}
+        pending_retry = [i for i in idxs if i not in done]
+    done = {r[0] for r in results}
+    for i in [i for i in idxs if i not in done]:
+        # one process per casualty: the scenario that kills its worker only takes itself down
+        try:
+            with ProcessPoolExecutor(max_workers=1, mp_context=ctx, initializer=_worker_init) as ex1:
+                try:
+                    results.append(ex1.submit(_run_scenario, i).result(timeout=SCEN_TIMEOUT))
+                except Exception:
+                    for pr in list(getattr(ex1, "_processes", {}).values()):
+                        try:
+                            pr.kill()
+                        except Exception:
+                            pass
+                    raise
+        except Exception as e:           # noqa
+            results.append(_died(i, f"the worker process died or timed out ({type(e).__name__}): out of memory / time in the automaton or solver back end"))
+    return results
 
 
 def load_findings() -> Dict[str, Any]:
@@ -134,11 +205,7 @@ def main(argv=None) -> int:
         print(f"INTERNAL-ERROR property={prop}: no contract scenario generates obligations (vacuity guard)")
         return 3
 
-    ctx = mp.get_context("fork")
-    results = []
-    with ctx.Pool(processes=max(1, args.jobs)) as pool:
-        for r in pool.imap_unordered(_run_scenario, idxs, chunksize=1):
-            results.append(r)
+    results = _run_all(idxs, max(1, args.jobs))
     results.sort(key=lambda r: r[0])
 
     errors = [(core.REGISTRY[i].ident, err) for (i, _o, err, _t, _inf) in results if err]
@@ -148,7 +215,10 @@ def main(argv=None) -> int:
     rewrites: Dict[str, Any] = {}
     for (i, o, err, dt, info) in results:
         sc = core.REGISTRY[i]
-        own = [x for x in o if prop in x["props"] or "*" in x["props"]]
+        # a part of a scenario that did not run to completion (RUN, not proved) leaves ALL the obligations it would have
+        # generated for this property unchecked, whatever properties the RUN obligation itself was labelled with
+        own = [x for x in o if prop in x["props"] or "*" in x["props"]
+               or (x["family"] == "RUN" and x["status"] != PROVED and "*" not in sc.props)]
         for x in o:
             all_obs[x["name"]] = x
         obs.extend(own)
@@ -180,6 +250,10 @@ def main(argv=None) -> int:
     try:
         from vf import sweeps
         extra, sweep_viol = sweeps.run(prop, args.tier, seed, force=bool(undecided or new))
+        for he in extra.get("harness_errors", []):
+            hob = Ob(f"sweep:{he.split(':')[0]}:RUN", "vf.sweeps", "RUN", "the bounded sweep's use of the public API fits this tree", UNDECIDED, [prop],
+                     "harness", 0.0, "", "harness does not fit the tree: " + he).to_json()
+            undecided.append(hob)
     except Exception:
         errors.append(("sweeps", traceback.format_exc(limit=6)))
 
